@@ -283,6 +283,16 @@ def gen_plan(rng, family):
         seq.append(["submit", "value"])
         plan["threads"] = [seq]
         plan["final"] = "await+shutdown"
+    elif family == "spawnfail":                 # C03 C01: a worker cannot be started once (EAGAIN) in the middle of submit(); the pool is used afterwards
+        plan["workers"] = rng.choice([1, 1, 2])
+        plan["timeout"] = 0.05
+        seq = [["submit", "value"], ["await_all"], ["pause"], ["failspawn"], ["submit", rng.choice(["value", "long"])]]
+        for _ in range(rng.randint(1, 3)):
+            seq.append(["submit", rng.choice(["value", "long", "value"])])
+            if rng.random() < 0.3:
+                seq.append(["pause"])
+        plan["threads"] = [seq]
+        plan["final"] = "await+submit+shutdown"
     elif family == "saturate":                  # C08 delivered
         plan["workers"] = rng.choice([1, 2, 3])
         plan["timeout"] = rng.choice([None, 0.05, 0.05])
@@ -377,6 +387,8 @@ def make_program(plan):
                         ok = env.futs[tid][1].cancel()
                         if ok:
                             env.notes.setdefault("cancelled", []).append(tid)
+                elif op == "failspawn":
+                    S.SimProcess.fail_next = 1
                 elif op == "pause":
                     # let everything that can happen happen (idle workers may time out meanwhile)
                     env.kern.park("pause", enabled=lambda: False, can_timeout=True)
@@ -744,7 +756,7 @@ def analyze(plan, r):
         hang_props.append("C02")
     if fam == "killshutdown" or (fam == "cancelfail" and notes.get("shutdown") == "kill"):
         hang_props.append("C06")
-    if fam in ("plain", "full", "timeout", "saturate") and not kills:
+    if fam in ("plain", "full", "timeout", "saturate", "spawnfail") and not kills:
         hang_props += ["C04", "C03", "C08"]
     if fam == "callback":
         hang_props += ["C04"]
@@ -772,9 +784,17 @@ def analyze(plan, r):
             continue
         add(hang_props, "crash", f"crash[{c}] ctx[{ctx}]", str(r.crashes[:2]))
     # 2. hangs
-    if fam != "saturate" and r.status in ("quiescent", "polling") and (not r.users_done or pending):
+    spawn_failed = fam == "spawnfail" and any(e_[2] in ("BlockingIOError", "OSError") for e_ in notes.get("submit_errors", [])) \
+        or (fam == "spawnfail" and notes.get("late_submit") in ("BlockingIOError", "OSError"))
+    # (a submit() that failed because a worker could not be started leaves its item registered: observation O3, outside the
+    #  properties' fault model -- in that family only the routing of results is judged, not liveness)
+    if fam != "saturate" and not spawn_failed and r.status in ("quiescent", "polling") and (not r.users_done or pending):
         sig = (f"hang status[{r.status}] blocked[{','.join(blocked)}] dead-holders[{','.join(sorted(set(dead_holders)))}] "
                f"crashes[{','.join(sorted(set(crashes)))}] ctx[{ctx}]")
+        if any(b_.endswith("sem.acquire:cq.slot") for b_ in blocked):
+            # somebody waits for a free slot of the call queue: how many slots it has is part of the history
+            slots = sorted({getattr(ex_.get("cq"), "_maxsize", None) for ex_ in env.all_executors if ex_.get("cq") is not None} - {None})
+            sig += f" queue-slots[{','.join(map(str, slots))}]"
         add(hang_props, "hang", sig, f"pending futures {pending}; users_done={r.users_done}")
     if r.status == "steps":
         add([], "inconclusive", "steps-exhausted")
@@ -825,7 +845,7 @@ def analyze(plan, r):
         elif (kills or fatal_kinds) and flags.broken is not None:
             pass
         # a pool that is not broken must still work
-        if flags.broken is None and not notes.get("shutdown") and "late_submit" in notes:
+        if flags.broken is None and not notes.get("shutdown") and "late_submit" in notes and not spawn_failed:
             if notes["late_submit"] != "accepted" or notes.get("late_result") != ("value", -1):
                 add(["C04", "C01"], "pool-unusable", f"healthy-pool-refuses-work got[{notes.get('late_submit')},{notes.get('late_result')}] ctx[{ctx}]")
         if not kills and not fatal_kinds and flags.broken is not None:
